@@ -340,7 +340,7 @@ class RuleRunner:
                         if isinstance(fm, (bool, np.bool_)):
                             results.setdefault(label, []).append((bool(fm), "concrete", None))
                         else:
-                            res = alg.prove(facts, fm, self.spec.get("timeout", 4000), want_smt=False)
+                            res = alg.prove(facts, fm, self.spec.get("timeout", 8000), want_smt=False)
                             results.setdefault(label, []).append((res["status"] == "unsat",
                                                                   f"{res['status']} {res.get('reason','')} [{res['backend']}]", fm))
         except Unsupported as e:
